@@ -141,8 +141,15 @@ func unquoteString(b []byte) ([]byte, int) {
 		if err != nil {
 			break
 		}
+		if ch == utf8.RuneError && len(str)-len(tail) == 1 {
+			// Invalid UTF-8 encoding, the replacement character would be longer than the input
+			break
+		}
 		res = append(res, string(ch)...)
 		str = tail
+	}
+	if len(str) == len(b) {
+		return nil, 0
 	}
 	return res, len(b) - len(str)
 }
